@@ -19,13 +19,14 @@ import (
 // arithmetic it does itself is floor(t, resolution) toward minus infinity.
 
 type c20Case struct {
-	TimesNs    []int64  `json:"times_ns_since_unix_epoch"`
-	MaxDiff    string   `json:"max_diff"`
-	Resolution string   `json:"resolution"`
-	Output     []string `json:"output_log,omitempty"`
-	At         string   `json:"at,omitempty"`
-	Got        string   `json:"got,omitempty"`
-	Want       string   `json:"want,omitempty"`
+	RetractMask int      `json:"retraction_mask,omitempty"` // bit i set: input i is a retraction
+	TimesNs     []int64  `json:"times_ns_since_unix_epoch"`
+	MaxDiff     string   `json:"max_diff"`
+	Resolution  string   `json:"resolution"`
+	Output      []string `json:"output_log,omitempty"`
+	At          string   `json:"at,omitempty"`
+	Got         string   `json:"got,omitempty"`
+	Want        string   `json:"want,omitempty"`
 }
 
 func c20Time(ns int64) time.Time { return time.Unix(0, ns).UTC() }
@@ -43,6 +44,12 @@ func c20Dur(ns int64) string { return time.Duration(ns).String() }
 
 // c20Check runs one sequence and returns (fingerprint, what, case, #watermarks, #dropped).
 func c20Check(times []int64, maxDiff time.Duration, resolution *time.Duration) (fp, what string, cs c20Case, nWM, nDropped int) {
+	return c20CheckMask(times, 0, maxDiff, resolution)
+}
+
+// c20CheckMask: bit i of retractMask makes input i a retraction (the rule "dropped iff at or below the current
+// watermark, else passed unchanged" applies to retractions like to any other record).
+func c20CheckMask(times []int64, retractMask int, maxDiff time.Duration, resolution *time.Duration) (fp, what string, cs c20Case, nWM, nDropped int) {
 	res := int64(time.Second) // documented default
 	resName := "default"
 	if resolution != nil {
@@ -52,8 +59,9 @@ func c20Check(times []int64, maxDiff time.Duration, resolution *time.Duration) (
 	cs = c20Case{TimesNs: times, MaxDiff: maxDiff.String(), Resolution: resName}
 	evs := make([]stream.Ev, len(times))
 	for i, ns := range times {
-		evs[i] = stream.Ev{Kind: stream.Rec, Vals: []octosql.Value{octosql.NewInt(int64(i)), octosql.NewTime(c20Time(ns))}}
+		evs[i] = stream.Ev{Kind: stream.Rec, Vals: []octosql.Value{octosql.NewInt(int64(i)), octosql.NewTime(c20Time(ns))}, Retract: retractMask&(1<<i) != 0}
 	}
+	cs.RetractMask = retractMask
 	log, err, pan := stream.RunSingle(func(src execution.Node) execution.Node {
 		return mustNode(mkMaxDiff(src, maxDiff, resolution))
 	}, evs)
@@ -115,8 +123,8 @@ func c20Check(times []int64, maxDiff time.Duration, resolution *time.Duration) (
 		}
 		if len(recs) == 1 {
 			o := recs[0]
-			if o.Retract || stream.ValsKey(o.Vals) != stream.ValsKey(evs[i].Vals) {
-				cs.At, cs.Got, cs.Want = at, o.String(), "+"+stream.ValsKey(evs[i].Vals)
+			if o.Retract != evs[i].Retract || stream.ValsKey(o.Vals) != stream.ValsKey(evs[i].Vals) {
+				cs.At, cs.Got, cs.Want = at, o.String(), evs[i].String()
 				return "record/changed", fmt.Sprintf("%s: %s passed as %s, values or retraction flag changed", desc, at, o), cs, nWM, nDropped
 			}
 			if !o.T.Equal(ts) {
@@ -213,7 +221,7 @@ func init() {
 		}
 		r.Bound = map[string]interface{}{"max_len": maxLen, "times_after_unix_epoch": alpha, "max_diff": []string{"0s", "1s", "2s"},
 			"resolution": []string{"default(absent)", "1s", "2s"}, "sequences": len(seqs), "configs": len(maxDiffs) * len(resolutions)}
-		r.Rule = "every sequence (any order, duplicates) of record times up to the length bound over the alphabet x max_diff x resolution, rows [k=index, ts] with zero event time, run on the real max_diff_watermark node; oracle = invariants on the output log aligned by input position: (1) each emitted watermark == floor(max time seen so far, resolution) - max_diff with floor toward minus infinity, (2) strictly increasing, (3) emitted whenever that quantity exceeds the last emitted watermark, (4) record passes iff its time > the last emitted watermark (zero time initially), once, unchanged, event time == time field, not after a watermark of its own input that is >= its time; non-trivial = sequence with at least one dropped record and at least one emitted watermark"
+		r.Rule = "every sequence (any order, duplicates) of record times up to the length bound over the alphabet x max_diff x resolution, rows [k=index, ts] with zero event time (and, for short sequences, every choice of which rows are retractions), run on the real max_diff_watermark node; oracle = invariants on the output log aligned by input position: (1) each emitted watermark == floor(max time seen so far, resolution) - max_diff with floor toward minus infinity, (2) strictly increasing, (3) emitted whenever that quantity exceeds the last emitted watermark, (4) record passes iff its time > the last emitted watermark (zero time initially), once, unchanged, event time == time field, not after a watermark of its own input that is >= its time; non-trivial = sequence with at least one dropped record and at least one emitted watermark"
 		r.Assume("absent resolution means 1s (documented default)", "max_diff < 0 and resolution <= 0 are out of contract and not generated",
 			"the statement is silent about the relative order of a record and the watermark emitted on the same input; only 'record after a watermark >= its time' is judged",
 			"'current watermark' for the pass/drop decision is the last watermark the node actually emitted (so a wrong watermark value is reported once, as a watermark defect)")
@@ -225,6 +233,17 @@ func init() {
 			md, res := maxDiffs[c/len(resolutions)], resolutions[c%len(resolutions)]
 			fp, what, cs, nWM, nDropped := c20Check(s, md, res)
 			r.Eval(1)
+			// the same sequence with every non-empty choice of which inputs are retractions (lengths <= 3 quick, <= 4 thorough)
+			if fp == "" && len(s) >= 1 && len(s) <= r.Pick(3, 4) {
+				for mask := 1; mask < 1<<len(s); mask++ {
+					fp2, what2, cs2, _, _ := c20CheckMask(s, mask, md, res)
+					r.Eval(1)
+					if fp2 != "" {
+						fp, what, cs = "with-retractions/"+fp2, what2+fmt.Sprintf(" (retraction mask %b)", mask), cs2
+						break
+					}
+				}
+			}
 			if fp != "" {
 				r.Outcome("violation:" + fp)
 				r.Violation("C20/"+fp, what, cs)
